@@ -195,6 +195,66 @@ func h1v(r *explore.Run, rep *report.R, sc string, depth int, foreground bool, s
 	finish(r, rep, sc, trail, inj.Taken, s)
 }
 
+// h1fresh: H1 from a claim that has never been reconciled: its first sync
+// (with a fault or crash at any call) may or may not have created an XR when
+// the user deletes the claim. Whatever XR names the claim must be deleted (or
+// gone) before the claim's finalizer goes.
+func h1fresh(r *explore.Run, rep *report.R, sc string, depth int, ssa bool) {
+	xrh.BeginExecution(1)
+	s := xrh.NewStore()
+	xrd := xrh.XRD()
+	s.Seed(xrd)
+	xrh.SeedComposition(s, xrh.PipelineComposition("comp", "noop"))
+	cm := xrh.Claim("ns", "c1")
+	_ = unstructured.SetNestedField(cm.Object, "comp", "spec", "compositionRef", "name")
+	s.Seed(cm)
+	inj := &xrh.FaultInjector{Run: r}
+	s.Inj = inj
+	mkClaim := func() reconcile.Reconciler { return xrh.NewClaimReconciler(xrd, s.Client("claim"), ssa) }
+	crec := mkClaim()
+	xrec := xrh.NewXRReconciler(xrd, xrh.XROptions{Cached: s.Client("xr"), Runner: xrh.FunctionRunner(noResources)})
+	nn := types.NamespacedName{Namespace: "ns", Name: "c1"}
+	s.OnWrite = append(s.OnWrite, func(rec *simkube.WriteRecord) {
+		if rec.Call.Key == xrh.ClaimKey("ns", "c1") && finalizerRemoved(rec, claimFinalizer) {
+			for _, x := range s.All(xrh.XRGVK.GroupKind()) {
+				n, _, _ := unstructured.NestedString(x.Object, "spec", "claimRef", "name")
+				if n == "c1" && x.GetDeletionTimestamp() == nil {
+					r.FailLater("claim/finalized-before-xr-deleted", "%s removed the claim's finalizer while XR %s, created for this claim, exists and is not being deleted", rec.Call, x.GetName())
+				}
+			}
+		}
+	})
+	events := []string{"claim-reconcile", "xr-reconcile", "user-deletes-claim", "gc-step"}
+	var trail []string
+	for step := 0; step < depth; step++ {
+		r.SeenRank(report.Hash(s.Canonical()), depth-step)
+		ev := events[r.Free(len(events), fmt.Sprintf("ev%d", step))]
+		trail = append(trail, ev)
+		switch ev {
+		case "claim-reconcile":
+			inj.Armed = true
+			out := xrh.Reconcile(crec, nn)
+			inj.Armed = false
+			if out.Crashed != nil {
+				crec = mkClaim()
+			}
+		case "xr-reconcile":
+			for _, x := range s.All(xrh.XRGVK.GroupKind()) {
+				xrh.Reconcile(xrec, types.NamespacedName{Name: x.GetName()})
+			}
+		case "user-deletes-claim":
+			_ = s.Client("user").Delete(ctxBG, xrh.Claim("ns", "c1"))
+		case "gc-step":
+			if as := s.GCActions(); len(as) > 0 {
+				s.GCApply(as[r.Free(len(as), fmt.Sprintf("gc%d", step))])
+			}
+		}
+		r.Raise()
+		r.Logf("step %d: %s -> claim=%v xrs=%d", step, ev, describeObj(s.Peek(xrh.ClaimKey("ns", "c1"))), len(s.All(xrh.XRGVK.GroupKind())))
+	}
+	finish(r, rep, sc, trail, inj.Taken, s)
+}
+
 func describeObj(u *unstructured.Unstructured) string {
 	if u == nil {
 		return "absent"
@@ -696,6 +756,11 @@ func TestCheck(t *testing.T) {
 		fg := fg
 		name := fmt.Sprintf("H1/foreground=%v/ssa=false/claimref-at-older-version", fg)
 		add(name, func(r *explore.Run) { h1v(r, rep, name, depth, fg, false, true) })
+	}
+	for _, ssa := range []bool{false, true} {
+		ssa := ssa
+		name := fmt.Sprintf("H1/never-reconciled-claim/ssa=%v", ssa)
+		add(name, func(r *explore.Run) { h1fresh(r, rep, name, depth, ssa) })
 	}
 	for _, foreign := range []bool{false, true} {
 		foreign := foreign
